@@ -34,7 +34,7 @@ verus! {
 //@   loops 1
 //@   loop 0 iter_name it
 //@   loop 0 invariant [C05.argsdef.loop.iter] it.seq().len() == def.input_values@.len() && 0 <= it.index@ <= it.seq().len() && (forall|i: int| 0 <= i < it.seq().len() ==> *it.seq()[i] == def.input_values@[i])
-//@   loop 0 invariant [C05.argsdef.loop.frame] crate::extends_errs(old(result)@, result@)
+//@   loop 0 invariant [C05.argsdef.loop.frame] crate::extends_errs(old(result)@, result@) && crate::schema_wf(&definitions.type_system)
 //@   loop 0 invariant [C05.argsdef.loop.seen] crate::seen_ok(crate::names_view(argument_names), crate::inputvalue_names(def.input_values@), it.index@ as int)
 //@   loop 0 invariant [C05.argsdef.loop.exact] (result@.len() == old(result)@.len()) <==> crate::argsdef_ok_upto(def, definitions, it.index@ as int)
 //@   hint before 0 "let mut argument_names = vec![];" :: [C05.argsdef.h_init] proof { crate::axiom_str_obeys(); crate::lemma_seen_init(crate::inputvalue_names(def.input_values@)); }
@@ -50,7 +50,7 @@ verus! {
 //@   loops 1
 //@   loop 0 iter_name it
 //@   loop 0 invariant [C05.ts_union.loop.iter] it.seq().len() == union.members@.len() && 0 <= it.index@ <= it.seq().len() && (forall|i: int| 0 <= i < it.seq().len() ==> *it.seq()[i] == union.members@[i])
-//@   loop 0 invariant [C05.ts_union.loop.frame] crate::extends_errs(old(result)@, result@)
+//@   loop 0 invariant [C05.ts_union.loop.frame] crate::extends_errs(old(result)@, result@) && crate::schema_wf(&definitions.type_system)
 //@   loop 0 invariant [C05.ts_union.loop.seen] crate::seen_ok(crate::names_view(seen_members), crate::ident_names(union.members@), it.index@ as int)
 //@   loop 0 invariant [C05.ts_union.loop.exact] (result@.len() == old(result)@.len()) <==> crate::union_ok_upto(union, definitions, it.index@ as int)
 //@   prefix broadcast use crate::str_key_model;
@@ -67,7 +67,7 @@ verus! {
 //@   loops 1
 //@   loop 0 iter_name it
 //@   loop 0 invariant [C05.ts_input.loop.iter] it.seq().len() == input.fields@.len() && 0 <= it.index@ <= it.seq().len() && (forall|i: int| 0 <= i < it.seq().len() ==> *it.seq()[i] == input.fields@[i])
-//@   loop 0 invariant [C05.ts_input.loop.frame] crate::extends_errs(old(result)@, result@)
+//@   loop 0 invariant [C05.ts_input.loop.frame] crate::extends_errs(old(result)@, result@) && crate::schema_wf(&definitions.type_system)
 //@   loop 0 invariant [C05.ts_input.loop.seen] crate::seen_ok(crate::names_view(seen_fields), crate::inputvalue_names(input.fields@), it.index@ as int)
 //@   loop 0 invariant [C05.ts_input.loop.exact] (result@.len() == old(result)@.len()) <==> crate::input_ok_upto(input, definitions, it.index@ as int)
 //@   hint before 0 "let mut seen_fields = vec![];" :: [C05.ts_input.h_init] proof { crate::axiom_str_obeys(); crate::lemma_seen_init(crate::inputvalue_names(input.fields@)); }
